@@ -372,8 +372,8 @@ func (vr *variableResolver) resolve(ctx *ExecutionContext) (*Value, error) {
 							return AsValue(nil), nil
 						}
 					case reflect.Map:
-						key := reflect.ValueOf(part.s)
-						if !key.Type().AssignableTo(current.Type().Key()) {
+						key, ok := mapKey(reflect.ValueOf(part.s), current.Type().Key())
+						if !ok {
 							// A name can't be a key of this map (e.g. map[int]string)
 							return AsValue(nil), nil
 						}
@@ -425,11 +425,11 @@ func (vr *variableResolver) resolve(ctx *ExecutionContext) (*Value, error) {
 						if sv.IsNil() {
 							return AsValue(nil), nil
 						}
-						if sv.val.Type().AssignableTo(current.Type().Key()) && sv.val.Comparable() {
-							current = current.MapIndex(sv.val)
-						} else {
+						key, ok := mapKey(sv.val, current.Type().Key())
+						if !ok {
 							return AsValue(nil), nil
 						}
+						current = current.MapIndex(key)
 					default:
 						return nil, fmt.Errorf("can't access an index on type %s (variable %s)",
 							current.Kind().String(), vr.String())
@@ -912,4 +912,29 @@ func (p *Parser) parseVariableElement() (INode, *Error) {
 	}
 
 	return node, nil
+}
+
+// mapKey gives k as a key of a map whose keys are of type keyType, if it can
+// be one: a value of that type, or the same text or the same integer under
+// another Go type (m["paid"] with map[Status]string where Status is a string
+// type; m[1] with map[int64]string). An integer that does not fit the key
+// type, and anything that cannot be hashed, is no key.
+func mapKey(k reflect.Value, keyType reflect.Type) (reflect.Value, bool) {
+	if k.Type().AssignableTo(keyType) {
+		return k, k.Comparable()
+	}
+	isInt := func(kind reflect.Kind) bool {
+		return kind >= reflect.Int && kind <= reflect.Int64 || kind >= reflect.Uint && kind <= reflect.Uint64
+	}
+	switch {
+	case k.Kind() == reflect.String && keyType.Kind() == reflect.String:
+		return k.Convert(keyType), true
+	case isInt(k.Kind()) && isInt(keyType.Kind()):
+		conv := k.Convert(keyType)
+		if (k.CanInt() && k.Int() < 0) != (conv.CanInt() && conv.Int() < 0) || !conv.Convert(k.Type()).Equal(k) {
+			return reflect.Value{}, false // out of the key type's range
+		}
+		return conv, true
+	}
+	return reflect.Value{}, false
 }
